@@ -443,6 +443,9 @@ func checkC01(c *Ctx) {
 		for _, p := range pos[1:] {
 			p := p
 			exprS1(func(st string, e *E) { run(st+"@"+p.name, p, e, 0) })
+			if strings.Contains(p.name, "range") {
+				continue // a function result such as round(12345.678) as a loop bound is a long loop, not a hang
+			}
 			exprS5(func(st string, e *E) { run(st+"@"+p.name, p, e, 0) })
 		}
 	}
